@@ -120,11 +120,12 @@ impl ObjectPath {
         let suffix = module.as_ref();
         if !suffix.is_empty() {
             if self.len != 0 {
-                last_element_offset = data.len() + 1;
                 data.push('.');
             }
+            // the suffix may consist of several components ("a.b")
+            last_element_offset = data.len() + suffix.rfind('.').map_or(0, |i| i + 1);
             data.push_str(suffix);
-            len += 1;
+            len += suffix.split('.').count();
         }
 
         Self {
